@@ -80,8 +80,8 @@ type harness struct {
 	rows   []tableLine
 
 	fnChecked, fnSkippedFrames, fnTaintObserved, fnTaintPredicted int
-	sysRuns, sysCompared                                         int
-	traceEvents, traceRuns                                       int
+	sysRuns, sysCompared                                          int
+	traceEvents, traceRuns                                        int
 }
 
 type witness struct {
